@@ -40,6 +40,9 @@ def run(ctx, report):
 # ------------------------------------------------------------------ returns
 
 
+from kernel import assume  # noqa: E402
+
+
 def returns_rule(ctx, report):
     cfg = ctx.config
     # insert_raw_rlp: Ok(previous value of the caller's key)
@@ -79,7 +82,11 @@ def returns_rule(ctx, report):
                 if d is None or getattr(d[2], "rv", None) is None or d[2].rv.kind != "aggregate":
                     why = "Ok payload is not a tuple built in place"
                     continue
-                comps = [trace_local(an, o) for o in d[2].rv.ops]
+                from rules.typestate import value_chain
+                comps = []
+                for o in d[2].rv.ops:
+                    ch = value_chain(an, d[0], d[1], o)
+                    comps.append(ch[0] if ch else trace_local(an, o))
                 kinds = []
                 for cl in comps:
                     pushes = []
@@ -89,6 +96,9 @@ def returns_rule(ctx, report):
                             if ev["kind"] == "mutcall" and ev["term"].callee and ev["term"].callee.name == "push":
                                 t = ev["term"]
                                 x = strip(an.operand_expr(t.args[1], ev["bb"], ev["idx"]))
+                                px = ok_payload(x)
+                                if px is not None:
+                                    x = strip(px)  # Ok(content.insert(..)) unwrapped by a collect into Result<Vec<_>, _>
                                 pushes.append(x.a[0].name if x.k == "call" and "BTreeMap" in x.a[0].fn else "?")
                             elif ev["kind"] in ("mutcall", "write") and not (ev.get("term") and ev["term"].callee and ev["term"].callee.name in ("push",)):
                                 pushes.append("other")
@@ -102,47 +112,60 @@ def returns_rule(ctx, report):
         f = ctx.facts.fn(path)
         if f is None:
             continue
-        an = ctx.an(f)
+        an0 = ctx.an(f)
         name = f.name
-        somes = 0
+        somes_per = []
         bad = []
-        for bb, idx, e, node in ret_exprs(an):
-            es = strip(e)
-            if not (es.k == "agg" and es.a[0].endswith("Result::Ok")):
-                continue
-            v = strip(es.a[1]["0"])
-            if v.k == "agg" and v.a[0].endswith("Option::None"):
-                continue
-            # some decoder applied to the Some payload of the insert result
-            exprs = [v] + array_sources(ctx, f, an, v)
-            decs, prev = [], []
-            for ex in exprs:
-                for c in ex.walk():
-                    if c.k == "call" and c.a[0].name == "decode" and (c.a[0].trait or "").endswith("Decodable"):
-                        decs.append(c)
-                    if c.k == "call" and c.a[0].target() == "Enr::<K>::insert":
-                        prev.append(c)
-                    cl = closure_of(c) if c.k == "agg" else None
-                    if cl is not None:
-                        from kernel import E
-                        body = closures.closure_return(ctx, cl[0], cl[1], [E("closure-arg")]) or []
-                        for bexp in body:
-                            for c2 in bexp.walk():
-                                if c2.k == "call" and c2.a[0].name == "decode" and (c2.a[0].trait or "").endswith("Decodable"):
-                                    decs.append(c2)
-            if decs and prev:
-                cls = rlpclass.consumer_class_from_callee(decs[0].a[0]) if hasattr(rlpclass, "consumer_class_from_callee") else rlpclass.class_of_type(decs[0].a[0].self_ty["s"])
-                want = rows[0][2] if len(rows) == 1 else None
-                if want is not None and cls != want:
-                    bad.append("previous value decoded as %s" % rlpclass.fmt(cls))
-                elif want is None and cls not in (("BYTES", None), ("BYTES", 4), ("BYTES", 16)):
-                    bad.append("previous value decoded as %s" % rlpclass.fmt(cls))
+        for guard, _key, _cls in rows:
+            an = an0
+            if guard is not None:
+                def pred(cond, names, _g=guard):
+                    c = strip(cond)
+                    if c.k == "discr" and names and strip(c.a[0]).k == "param" and strip(c.a[0]).a[0] == 2:
+                        return {_g}
+                    return None
+                an = assume(an0, pred)
+            somes = 0
+            for bb, idx, e, node in ret_exprs(an):
+                es = strip(e)
+                if not (es.k == "agg" and es.a[0].endswith("Result::Ok")):
+                    continue
+                v = strip(es.a[1]["0"])
+                if v.k == "agg" and v.a[0].endswith("Option::None"):
+                    continue
+                # some decoder applied to the Some payload of the insert result
+                exprs = [v] + array_sources(ctx, f, an, v)
+                decs, prev = [], []
+                for ex in exprs:
+                    for c in ex.walk():
+                        if c.k == "call" and c.a[0].name == "decode" and (c.a[0].trait or "").endswith("Decodable"):
+                            decs.append(c)
+                        if c.k == "call" and c.a[0].target() == "Enr::<K>::insert":
+                            prev.append(c)
+                        cl = closure_of(c) if c.k == "agg" else None
+                        if cl is not None:
+                            from kernel import E
+                            body = closures.closure_return(ctx, cl[0], cl[1], [E("closure-arg")]) or []
+                            for bexp in body:
+                                for c2 in bexp.walk():
+                                    if c2.k == "call" and c2.a[0].name == "decode" and (c2.a[0].trait or "").endswith("Decodable"):
+                                        decs.append(c2)
+                if decs and prev:
+                    cls = rlpclass.consumer_class_from_callee(decs[0].a[0]) if hasattr(rlpclass, "consumer_class_from_callee") else rlpclass.class_of_type(decs[0].a[0].self_ty["s"])
+                    want = rows[0][2] if len(rows) == 1 else None
+                    if want is not None and cls != want:
+                        bad.append("previous value decoded as %s" % rlpclass.fmt(cls))
+                    elif want is None and cls not in (("BYTES", None), ("BYTES", 4), ("BYTES", 16)):
+                        bad.append("previous value decoded as %s" % rlpclass.fmt(cls))
+                    else:
+                        somes += 1
                 else:
-                    somes += 1
-            else:
-                bad.append("returns %s without decoding the previous raw value" % short(v, 100))
-        want_somes = len(rows)
-        report.check("RETURN", name, somes >= want_somes and not bad, "%s returns the decoded previous value of its key" % name,
+                    bad.append("returns %s without decoding the previous raw value" % short(v, 100))
+
+            somes_per.append(somes)
+        somes = min(somes_per) if somes_per else 0
+        bad = sorted(set(bad))
+        report.check("RETURN", name, somes >= 1 and not bad, "%s returns the decoded previous value of its key" % name,
                      "%s does not return the decoded previous value (%d decoding return paths; %s)" % (name, somes, bad), fn=f.path, sp=f.span, config=cfg)
 
 
@@ -369,6 +392,12 @@ def cause_ok(ctx, f, an, bb, idx, s, var):
                 a1 = trace_local(an, t.args[1])
                 if a0.k == "call" and a0.a[0].name in ("get", "first", "last", "split_first", "checked_sub", "strip_prefix") and s.place.is_local() and a1 == s.place.local:
                     return True, ""
+        # explicit form of `?`: wraps the very error an alloy-rlp decoder returned
+        e = an.rvalue_expr(s.rv, bb, idx)
+        if e.k == "agg" and "0" in e.a[1]:
+            inner = strip(e.a[1]["0"])
+            if inner.k == "vfield" and inner.a[1] == "Err" and strip(inner.a[0]).k == "call" and strip(inner.a[0]).a[0].krate == "alloy_rlp":
+                return True, ""
         # explicit: must carry an alloy error and sit under a length/emptiness test of a value
         for d, cond, allowed, alll in cons:
             c = strip(cond)
